@@ -143,6 +143,13 @@ pub open spec fn shape_exp(g: ProtoShape, s: Shape) -> bool {
         Shape::Path(p) => g is Path && path_is(g->Path_0, p),
     }
 }
+/// the instance message: name, reflection, location, target cell by name, rotation in whole degrees (zero for none)
+pub open spec fn inst_exp(g: proto::Instance, inst: Instance) -> bool {
+    &&& g.name@ == inst.inst_name@ &&& g.reflect_vert == inst.reflect_vert
+    &&& g.origin_location is Some && same_pt(g.origin_location->0, inst.loc)
+    &&& g.cell is Some && g.cell->0.to is Some && g.cell->0.to->0 is Local && g.cell->0.to->0->Local_0@ == (*inst.cell.v).name@
+    &&& match inst.angle { None => g.rotation_clockwise_degrees == 0, Some(a) => whole_degrees(a) == Some(g.rotation_clockwise_degrees) }
+}
 pub open spec fn pnet(g: ProtoShape) -> Seq<char> { match g { ProtoShape::Rect(r) => r.net@, ProtoShape::Poly(r) => r.net@, ProtoShape::Path(r) => r.net@ } }
 /// the schema stores "no net" as the empty string
 pub open spec fn net_exp(g: Seq<char>, net: Option<String>) -> bool { match net { Some(n) => g == n@, None => g.len() == 0 } }
@@ -229,14 +236,7 @@ impl<'lib> ProtoExporter<'lib> {
 //@ fn layout21raw/src/proto.rs :: impl<'lib> ProtoExporter<'lib> :: fn export_instance
 //@   ret r
 //@   spec
-//|     ensures final(self).lib == old(self).lib, r is Ok ==> ({
-//|         let g = r->Ok_0;
-//|         &&& g.name@ == inst.inst_name@ &&& g.reflect_vert == inst.reflect_vert
-//|         &&& g.origin_location is Some && same_pt(g.origin_location->0, inst.loc)
-//|         &&& g.cell is Some && g.cell->0.to is Some && g.cell->0.to->0 is Local && g.cell->0.to->0->Local_0@ == (*inst.cell.v).name@
-//|         // the rotation is exported (whole degrees; zero for none)
-//|         &&& match inst.angle { None => g.rotation_clockwise_degrees == 0, Some(a) => whole_degrees(a) == Some(g.rotation_clockwise_degrees) }
-//|     }),
+//|     ensures final(self).lib == old(self).lib, r is Ok ==> inst_exp(r->Ok_0, *inst),
 //@ end
 }
 
@@ -247,6 +247,11 @@ impl<'lib> ProtoExporter<'lib> {
 pub struct CellMap { pub m: Vec<Ptr<Cell>> }
 impl CellMap {
     pub uninterp spec fn lookup(&self, k: Seq<char>) -> Option<Ptr<Cell>>;
+    /// model of HashMap::insert: the key now maps to `v`, every other key as before
+    #[verifier::external_body]
+    pub fn insert(&mut self, k: String, v: Ptr<Cell>) -> (r: Option<Ptr<Cell>>)
+        ensures forall|q: Seq<char>| #[trigger] final(self).lookup(q) == (if q == k@ { Some(v) } else { old(self).lookup(q) }),
+    { unimplemented!() }
     #[verifier::external_body]
     pub fn get(&self, k: &String) -> (r: Option<&Ptr<Cell>>)
         ensures (r is Some) == (self.lookup(k@) is Some), r is Some ==> *r->0 == self.lookup(k@)->0,
@@ -281,42 +286,42 @@ impl ProtoImporter {
 //@ fn layout21raw/src/proto.rs :: impl ProtoImporter :: fn import_point
 //@   ret r
 //@   spec
-//|     ensures r is Ok, same_pt(*pt, r->Ok_0), final(self).cell_map == old(self).cell_map, final(self).ctx == old(self).ctx,
+//|     ensures r is Ok, same_pt(*pt, r->Ok_0), final(self).cell_map == old(self).cell_map, final(self).lib == old(self).lib, final(self).ctx == old(self).ctx,
 //@ end
     /// ASSUMED element-wise contract of the iterator idiom (rule R6)
     #[verifier::external_body]
     fn import_point_vec(&mut self, points: &Vec<proto::Point>) -> (r: LayoutResult<Vec<Point>>)
-        ensures r is Ok, same_pts(points@, r->Ok_0@), final(self).cell_map == old(self).cell_map, final(self).ctx == old(self).ctx,
+        ensures r is Ok, same_pts(points@, r->Ok_0@), final(self).cell_map == old(self).cell_map, final(self).lib == old(self).lib, final(self).ctx == old(self).ctx,
     { unimplemented!() }
 //@ fn layout21raw/src/proto.rs :: impl ProtoImporter :: fn import_polygon
 //@   ret r
 //@   spec
-//|     ensures final(self).cell_map == old(self).cell_map, final(self).ctx == old(self).ctx, r is Ok ==> poly_imp(r->Ok_0, *ppoly),
+//|     ensures final(self).cell_map == old(self).cell_map, final(self).lib == old(self).lib, final(self).ctx == old(self).ctx, r is Ok ==> poly_imp(r->Ok_0, *ppoly),
 //@ end
 //@ fn layout21raw/src/proto.rs :: impl ProtoImporter :: fn import_rect
 //@   ret r
 //@   spec
 //|     requires rect_small(*prect),
-//|     ensures final(self).cell_map == old(self).cell_map, final(self).ctx == old(self).ctx, r is Ok ==> rect_imp(r->Ok_0, *prect),
+//|     ensures final(self).cell_map == old(self).cell_map, final(self).lib == old(self).lib, final(self).ctx == old(self).ctx, r is Ok ==> rect_imp(r->Ok_0, *prect),
 //|         prect.lower_left is None ==> r is Err,
 //@ end
 //@ fn layout21raw/src/proto.rs :: impl ProtoImporter :: fn import_path
 //@   ret r
 //@   spec
-//|     ensures final(self).cell_map == old(self).cell_map, final(self).ctx == old(self).ctx, r is Ok ==> path_imp(r->Ok_0, *x),
+//|     ensures final(self).cell_map == old(self).cell_map, final(self).lib == old(self).lib, final(self).ctx == old(self).ctx, r is Ok ==> path_imp(r->Ok_0, *x),
 //|         x.width < 0 ==> r is Err,
 //@ end
 //@ fn layout21raw/src/proto.rs :: impl ProtoImporter :: fn import_annotation
 //@   ret r
 //@   spec
-//|     ensures final(self).cell_map == old(self).cell_map, final(self).ctx == old(self).ctx, r is Ok ==> x.loc is Some && same_pt(x.loc->0, r->Ok_0.loc) && r->Ok_0.string@ == x.string@,
+//|     ensures final(self).cell_map == old(self).cell_map, final(self).lib == old(self).lib, final(self).ctx == old(self).ctx, r is Ok ==> x.loc is Some && same_pt(x.loc->0, r->Ok_0.loc) && r->Ok_0.string@ == x.string@,
 //|         x.loc is None ==> r is Err,
 //@ end
 //@ fn layout21raw/src/proto.rs :: impl ProtoImporter :: fn import_reference
 //@   ret r
 //@   sub R5 /let cellname: &str = match pref_to/ => let cellname: &String = match pref_to
 //@   spec
-//|     ensures final(self).cell_map == old(self).cell_map, final(self).ctx == old(self).ctx,
+//|     ensures final(self).cell_map == old(self).cell_map, final(self).lib == old(self).lib, final(self).ctx == old(self).ctx,
 //|         r is Ok ==> pinst.cell is Some && pinst.cell->0.to is Some && pinst.cell->0.to->0 is Local
 //|             && old(self).cell_map.lookup(pinst.cell->0.to->0->Local_0@) == Some(r->Ok_0),
 //|         // a missing reference, an external reference or an undefined cell is an error, not a crash
@@ -327,7 +332,7 @@ impl ProtoImporter {
 //@   ret r
 //@   sub R11 /Some\(f64::from\(pinst\.rotation_clockwise_degrees\)\)/ => Some(vp_f64_from_i32(pinst.rotation_clockwise_degrees))
 //@   spec
-//|     ensures final(self).cell_map == old(self).cell_map, r is Ok ==> final(self).ctx@ == old(self).ctx@ && inst_imp(r->Ok_0, *pinst, old(self).cell_map),
+//|     ensures final(self).cell_map == old(self).cell_map, final(self).lib == old(self).lib, r is Ok ==> final(self).ctx@ == old(self).ctx@ && inst_imp(r->Ok_0, *pinst, old(self).cell_map),
 //|         pinst.origin_location is None ==> r is Err,
 //@   before /^        Ok\(inst\)$/
 //|         proof { assert(self.ctx@ =~= old(self).ctx@); }
@@ -335,7 +340,7 @@ impl ProtoImporter {
     /// model of ProtoImporter::import_layer (looks the (number, purpose) pair up in / adds it to the shared layer table): ASSUMED to be a function of the pair
     #[verifier::external_body]
     fn import_layer(&mut self, player: &proto::Layer) -> (r: LayoutResult<(LayerKey, LayerPurpose)>)
-        ensures final(self).cell_map == old(self).cell_map, final(self).ctx == old(self).ctx, r is Ok ==> r->Ok_0 == layer_of(player.number, player.purpose),
+        ensures final(self).cell_map == old(self).cell_map, final(self).lib == old(self).lib, final(self).ctx == old(self).ctx, r is Ok ==> r->Ok_0 == layer_of(player.number, player.purpose),
     { unimplemented!() }
 //@ fn layout21raw/src/proto.rs :: impl ProtoImporter :: fn convert_shape
 //@   ret r
@@ -343,7 +348,7 @@ impl ProtoImporter {
 //@   sub R5 /net\.is_empty\(\)/ => vp_str_is_empty(net)
 //@   sub R5 /net\.to_string\(\)/ => net.clone()
 //@   spec
-//|     ensures final(self).cell_map == old(self).cell_map, final(self).ctx == old(self).ctx,
+//|     ensures final(self).cell_map == old(self).cell_map, final(self).lib == old(self).lib, final(self).ctx == old(self).ctx,
 //|         r is Ok, r->Ok_0.inner == inner, r->Ok_0.layer == layer, r->Ok_0.purpose == purpose, net_imp(r->Ok_0.net, net@),
 //@ end
 //@ fn layout21raw/src/proto.rs :: impl ProtoImporter :: fn import_layer_shapes
@@ -353,21 +358,21 @@ impl ProtoImporter {
 //@   sub R6 /for shape in &player\.paths \{/ => for shape in player.paths.iter() {
 //@   spec
 //|     requires layer_small(*player),
-//|     ensures final(self).cell_map == old(self).cell_map,
+//|     ensures final(self).cell_map == old(self).cell_map, final(self).lib == old(self).lib,
 //|         r is Ok ==> final(self).ctx@ == old(self).ctx@ && chunk_is(r->Ok_0@, *player),
 //|         player.layer is None ==> r is Err,
 //@   loop 1 iter it
-//|             invariant self.cell_map == old(self).cell_map, self.ctx@ == old(self).ctx@.push(ErrorContext::Geometry), layer_small(*player), player.layer is Some,
+//|             invariant self.cell_map == old(self).cell_map, self.lib == old(self).lib, self.ctx@ == old(self).ctx@.push(ErrorContext::Geometry), layer_small(*player), player.layer is Some,
 //|                 (layer, purpose) == layer_of(player.layer->0.number, player.layer->0.purpose), it.index@ <= player.rectangles@.len(),
 //|                 elems@.len() == it.index@, forall|i: int| 0 <= i < it.index@ ==> elem_rect(#[trigger] elems@[i], player.rectangles@[i], layer, purpose),
 //@   loop 2 iter it
-//|             invariant self.cell_map == old(self).cell_map, self.ctx@ == old(self).ctx@.push(ErrorContext::Geometry), player.layer is Some,
+//|             invariant self.cell_map == old(self).cell_map, self.lib == old(self).lib, self.ctx@ == old(self).ctx@.push(ErrorContext::Geometry), player.layer is Some,
 //|                 (layer, purpose) == layer_of(player.layer->0.number, player.layer->0.purpose), it.index@ <= player.polygons@.len(),
 //|                 elems@.len() == player.rectangles@.len() + it.index@,
 //|                 forall|i: int| 0 <= i < player.rectangles@.len() ==> elem_rect(#[trigger] elems@[i], player.rectangles@[i], layer, purpose),
 //|                 forall|i: int| 0 <= i < it.index@ ==> elem_poly(#[trigger] elems@[player.rectangles@.len() + i], player.polygons@[i], layer, purpose),
 //@   loop 3 iter it
-//|             invariant self.cell_map == old(self).cell_map, self.ctx@ == old(self).ctx@.push(ErrorContext::Geometry), player.layer is Some,
+//|             invariant self.cell_map == old(self).cell_map, self.lib == old(self).lib, self.ctx@ == old(self).ctx@.push(ErrorContext::Geometry), player.layer is Some,
 //|                 (layer, purpose) == layer_of(player.layer->0.number, player.layer->0.purpose), it.index@ <= player.paths@.len(),
 //|                 elems@.len() == player.rectangles@.len() + player.polygons@.len() + it.index@,
 //|                 forall|i: int| 0 <= i < player.rectangles@.len() ==> elem_rect(#[trigger] elems@[i], player.rectangles@[i], layer, purpose),
@@ -392,6 +397,14 @@ pub open spec fn elems_are(es: Seq<Element>, ls: Seq<proto::LayerShapes>) -> boo
         es.len() >= n && elems_are(es.take(es.len() - n), ls.drop_last()) && chunk_is(es.skip(es.len() - n), ls.last())
     }
 }
+/// the imported layout: name; one instance per protobuf instance, in order; every shape of every layer, in order; one annotation per text, in order
+pub open spec fn layout_imp(c: Layout, playout: proto::Layout, m: CellMap) -> bool {
+    &&& c.name@ == playout.name@
+    &&& c.insts@.len() == playout.instances@.len() &&& forall|i: int| 0 <= i < playout.instances@.len() ==> inst_imp(#[trigger] c.insts@[i], playout.instances@[i], m)
+    &&& elems_are(c.elems@, playout.shapes@)
+    &&& c.annotations@.len() == playout.annotations@.len()
+    &&& forall|i: int| 0 <= i < playout.annotations@.len() ==> (#[trigger] playout.annotations@[i]).loc is Some && same_pt(playout.annotations@[i].loc->0, c.annotations@[i].loc) && c.annotations@[i].string@ == playout.annotations@[i].string@
+}
 pub open spec fn layers_small(ls: Seq<proto::LayerShapes>) -> bool { forall|i: int| 0 <= i < ls.len() ==> layer_small(#[trigger] ls[i]) }
 /// model of `Vec::extend(Vec)` (rule R6): appends the elements in order
 #[verifier::external_body]
@@ -406,24 +419,14 @@ impl ProtoImporter {
 //@   sub R6 /cell\.elems\.extend\(self\.import_layer_shapes\(s\)\?\);/ => vp_extend_elems(&mut cell.elems, self.import_layer_shapes(s)?);
 //@   spec
 //|     requires layers_small(playout.shapes@),
-//|     ensures final(self).cell_map == old(self).cell_map,
-//|         r is Ok ==> ({
-//|             let c = r->Ok_0;
-//|             &&& final(self).ctx@ == old(self).ctx@ &&& c.name@ == playout.name@
-//|             // one instance per protobuf instance, in order
-//|             &&& c.insts@.len() == playout.instances@.len() &&& forall|i: int| 0 <= i < playout.instances@.len() ==> inst_imp(#[trigger] c.insts@[i], playout.instances@[i], old(self).cell_map)
-//|             // every shape of every layer, in order
-//|             &&& elems_are(c.elems@, playout.shapes@)
-//|             // one annotation per protobuf text, in order
-//|             &&& c.annotations@.len() == playout.annotations@.len()
-//|             &&& forall|i: int| 0 <= i < playout.annotations@.len() ==> (#[trigger] playout.annotations@[i]).loc is Some && same_pt(playout.annotations@[i].loc->0, c.annotations@[i].loc) && c.annotations@[i].string@ == playout.annotations@[i].string@
-//|         }),
+//|     ensures final(self).cell_map == old(self).cell_map, final(self).lib == old(self).lib,
+//|         r is Ok ==> final(self).ctx@ == old(self).ctx@ && layout_imp(r->Ok_0, *playout, old(self).cell_map),
 //@   loop 1 iter it
-//|             invariant self.cell_map == old(self).cell_map, self.ctx@ == old(self).ctx@.push(ErrorContext::Impl), layers_small(playout.shapes@), cell.name@ == playout.name@,
+//|             invariant self.cell_map == old(self).cell_map, self.lib == old(self).lib, self.ctx@ == old(self).ctx@.push(ErrorContext::Impl), layers_small(playout.shapes@), cell.name@ == playout.name@,
 //|                 cell.elems@.len() == 0, cell.annotations@.len() == 0, cell.insts@.len() == it.index@, it.index@ <= playout.instances@.len(),
 //|                 forall|i: int| 0 <= i < it.index@ ==> inst_imp(#[trigger] cell.insts@[i], playout.instances@[i], self.cell_map),
 //@   loop 2 iter it
-//|             invariant self.cell_map == old(self).cell_map, self.ctx@ == old(self).ctx@.push(ErrorContext::Impl), layers_small(playout.shapes@), cell.name@ == playout.name@,
+//|             invariant self.cell_map == old(self).cell_map, self.lib == old(self).lib, self.ctx@ == old(self).ctx@.push(ErrorContext::Impl), layers_small(playout.shapes@), cell.name@ == playout.name@,
 //|                 cell.annotations@.len() == 0, cell.insts@.len() == playout.instances@.len(), it.index@ <= playout.shapes@.len(),
 //|                 forall|i: int| 0 <= i < playout.instances@.len() ==> inst_imp(#[trigger] cell.insts@[i], playout.instances@[i], self.cell_map),
 //|                 elems_are(cell.elems@, playout.shapes@.take(it.index@ as int)),
@@ -438,7 +441,7 @@ impl ProtoImporter {
 //|                 assert(chunk_is(cell.elems@.skip(cell.elems@.len() - n), *s)) by { assert(cell.elems@.skip(cell.elems@.len() - n) =~= cell.elems@.skip(e0.len() as int)); }
 //|             }
 //@   loop 3 iter it
-//|             invariant self.cell_map == old(self).cell_map, self.ctx@ == old(self).ctx@.push(ErrorContext::Impl), cell.name@ == playout.name@,
+//|             invariant self.cell_map == old(self).cell_map, self.lib == old(self).lib, self.ctx@ == old(self).ctx@.push(ErrorContext::Impl), cell.name@ == playout.name@,
 //|                 cell.insts@.len() == playout.instances@.len(), it.index@ <= playout.annotations@.len(), cell.annotations@.len() == it.index@,
 //|                 forall|i: int| 0 <= i < playout.instances@.len() ==> inst_imp(#[trigger] cell.insts@[i], playout.instances@[i], self.cell_map),
 //|                 elems_are(cell.elems@, playout.shapes@),
